@@ -69,7 +69,16 @@ def enumerate_sites(ctx, only=None):
                         out.append((body.id, 'eq-negate', bi, si, op, EQ[op]))
             t = bl['term']
             if t['k'] == 'switch' and len(t['targets']) == 1 and t.get('otherwise') is not None:
-                out.append((body.id, 'switch-swap', bi, None, None, None))
+                # only tests of a bool: swapping the arms of `if let Some(x)` / `match` would use a payload that is not there
+                # (no source program corresponds to it)
+                dp = t['discr'].get('move') or t['discr'].get('copy')
+                is_discr = False
+                if dp is not None and not dp.get('proj'):
+                    for d in body.defs.get(dp['l'], []):
+                        if d[0] == 'stmt' and 'discr' in d[3]:
+                            is_discr = True
+                if not is_discr:
+                    out.append((body.id, 'switch-swap', bi, None, None, None))
             if t['k'] == 'call':
                 short = callee_name(t).rsplit('::', 1)[-1]
                 if short in SIBLINGS:
